@@ -29,7 +29,7 @@ CONSTANTS MaxDepth,     \* longest package directory, in elements below GOPATH/s
           MainKinds,    \* subset of {"string", "file"}
           MaxMainDepth, \* deepest directory for a main file
           AllowRel,     \* generate relative imports
-          Family,       \* "all" | "multi": which trees the exhaustive Init takes
+          Family,       \* "all" | "multi" | "triple": which trees the exhaustive Init takes
           Excl          \* apply the named exclusions of the known findings
 
 Names == {"a", "b"}
@@ -97,9 +97,10 @@ VARIABLES tree,    \* set of package directories below GOPATH/src
           stack,   \* load stack, sequence of [who, done]; done = indices of processed imports
           log,     \* visit log: package directories in the order they were initialised
           res,     \* resolution log: [from, imp, to, alt]
-          status,  \* "load" | "ok" | "cycle" | "notfound"
-          pin      \* 0, or the number of the pinned witness that is being loaded
-vars == <<tree, sit, mdir, code, stack, log, res, status, pin>>
+          status,  \* "tree" (simulation: the tree is being drawn) | "load" | "ok" | "cycle" | "notfound"
+          pin,     \* 0, or the number of the pinned witness that is being loaded
+          grow     \* simulation only: package directories still to be drawn for the tree
+vars == <<tree, sit, mdir, code, stack, log, res, status, pin, grow>>
 
 DirOf(w)   == IF w = MainId THEN mdir ELSE w
 HasCode(w) == \E i \in 1..Len(code) : code[i].who = w
@@ -175,14 +176,17 @@ NoMixedInside(w, l) ==
 (* signature of a failing case (emitted with every resolution, field trig).    *)
 NonRootPrefixes(d) == {SubSeq(d, 1, n) : n \in 1..Len(d)}
 \* some directory of that name exists below GOPATH/src, package or not
-DirExists(T, d) == \E e \in T : IsPrefix(d, e)
+\* (the main file's directory and its ancestors exist too)
+DirExists(T, d) == (\E e \in T : IsPrefix(d, e)) \/ (sit = "file" /\ IsPrefix(d, mdir))
 
 \* F-C16-1: an absolute import path of exactly two equal elements ("a/a")
 Excluded_F_C16_1(w, imp) == imp.k = "abs" /\ Len(imp.p) = 2 /\ imp.p[1] = imp.p[2]
-\* F-C16-2: one import string designates two different directories in one program
+\* F-C16-2: import strings and directories do not correspond one to one in the program:
+\* one string designates two different directories (a path vendored by one importer and not
+\* by another, "./x" in two directories), or two strings designate one directory ("./x", "../x")
 Excluded_F_C16_2(w, imp) ==
     LET t == Target(tree, DirOf(w), imp) IN
-    \E q \in PlannedOK : q.imp = imp /\ q.to # t
+    \E q \in PlannedOK : (q.imp = imp /\ q.to # t) \/ (q.imp # imp /\ q.to = t /\ t # NotFound)
 \* F-C16-3: the program is a main FILE and its own location matters for the answer:
 \* the file's import would be answered differently from GOPATH/src itself, or an import
 \* that no package of the program can see is visible from the main file's directory
@@ -190,16 +194,22 @@ Excluded_F_C16_3(w, imp) ==
     /\ sit = "file" /\ imp.k = "abs"
     /\ \/ w = MainId /\ Resolve(tree, mdir, imp.p) # Resolve(tree, Root, imp.p)
        \/ w # MainId /\ Resolve(tree, w, imp.p) = NotFound /\ Resolve(tree, mdir, imp.p) # NotFound
-\* F-C16-4: a directory <A>/<path> exists, A being the importing file's directory or one of
-\* its ancestors below GOPATH/src, and is not the answer (such a directory is no candidate
-\* of the vendor rule at all); when the import has no answer and the program is a main
-\* file, the same with the main file's directory for A
+\* F-C16-4: a directory that is no candidate of the vendor rule exists and is not the answer,
+\* namely Probe(A, path) for A the importing file's directory or one of its ancestors below
+\* GOPATH/src: A joined with the path, or - when A has two elements or more and its last
+\* element occurs in the path before the path's last element - A joined with what follows
+\* the last such occurrence ("b/c" imported from x/b: x/b/c).  When the import has no answer
+\* and the program is a main file, the same with the main file's directory for A.
+Probe(A, P) ==
+    LET n == Len(P)
+        J == {j \in 1..(n - 1) : P[j] = A[Len(A)]}
+    IN IF Len(A) >= 2 /\ J # {} THEN A \o SubSeq(P, Max(J) + 1, n) ELSE A \o P
 Excluded_F_C16_4(w, imp) ==
     imp.k = "abs" /\
     LET t == Target(tree, DirOf(w), imp)
         As == NonRootPrefixes(DirOf(w)) \cup
               (IF sit = "file" /\ t = NotFound THEN NonRootPrefixes(mdir) ELSE {})
-    IN \E A \in As : DirExists(tree, A \o imp.p) /\ (A \o imp.p) # t
+    IN \E A \in As : DirExists(tree, Probe(A, imp.p)) /\ Probe(A, imp.p) # t
 \* F-C16-5: a candidate directory that exists but holds no package (no Go files) comes
 \* before the answer
 Excluded_F_C16_5(w, imp) ==
@@ -231,7 +241,7 @@ Synth(excl, rnd) ==
     /\ LET O == SynthOptions(Top.who, excl) IN
        IF rnd THEN code' = Append(code, [who |-> Top.who, imps |-> RandomElement(O)])
               ELSE \E l \in O : code' = Append(code, [who |-> Top.who, imps |-> l])
-    /\ UNCHANGED <<tree, sit, mdir, stack, log, res, status, pin>>
+    /\ UNCHANGED <<tree, sit, mdir, stack, log, res, status, pin, grow>>
 
 \* processing the i-th import statement of the file on top of the stack
 StepAt(i) ==
@@ -245,7 +255,7 @@ StepAt(i) ==
             [] t \in OnStack     -> status' = "cycle"    /\ stack' = mark
             [] t \in Rng(log)  -> status' = status     /\ stack' = mark   \* loaded before: once
             [] OTHER             -> status' = status     /\ stack' = Append(mark, [who |-> t, done |-> {}])
-       /\ UNCHANGED <<tree, sit, mdir, code, log, pin>>
+       /\ UNCHANGED <<tree, sit, mdir, code, log, pin, grow>>
 
 Todo == (1..Len(Imps(Top.who))) \ Top.done
 
@@ -264,10 +274,10 @@ Finish ==
     /\ stack' = SubSeq(stack, 1, Len(stack) - 1)
     /\ IF Top.who = MainId THEN status' = "ok" /\ log' = log
                            ELSE status' = status /\ log' = Append(log, Top.who)
-    /\ UNCHANGED <<tree, sit, mdir, code, res, pin>>
+    /\ UNCHANGED <<tree, sit, mdir, code, res, pin, grow>>
 
 StartLoad(T, s, m) ==
-    /\ tree = T /\ sit = s /\ mdir = m /\ pin = 0
+    /\ tree = T /\ sit = s /\ mdir = m /\ pin = 0 /\ grow = 0
     /\ code = <<>> /\ stack = <<[who |-> MainId, done |-> {}]>>
     /\ log = <<>> /\ res = <<>> /\ status = "load"
 
@@ -276,7 +286,11 @@ StartLoad(T, s, m) ==
 Trees == UNION {kSubset(k, PkgDirs(MaxDepth)) : k \in 1..MaxPkgs}
 \* trees in which some import path is present in several places
 Multi(T) == \E d, e \in T : d # e /\ PathOf(d) = PathOf(e)
-FamilyTrees == IF Family = "multi" THEN {T \in Trees : Multi(T)} ELSE Trees
+\* trees in which some import path is present in three places
+Triple(T) == \E d, e, f \in T : d # e /\ e # f /\ d # f /\ PathOf(d) = PathOf(e) /\ PathOf(e) = PathOf(f)
+FamilyTrees == CASE Family = "multi"  -> {T \in Trees : Multi(T)}
+                 [] Family = "triple" -> {T \in Trees : Triple(T)}
+                 [] OTHER -> Trees
 \* a main file lies in a directory that is no package directory
 \* and not inside a vendor directory (MainNotInVendor: the toolchain aborts on such a layout)
 \* and not GOPATH/src itself (MainNotAtRoot: a file there has no import path, the toolchain does
@@ -323,56 +337,54 @@ ProgOf(n, w) ==
 SynthPin ==
     /\ status = "load" /\ stack # <<>> /\ ~HasCode(Top.who) /\ pin # 0
     /\ code' = Append(code, [who |-> Top.who, imps |-> ProgOf(pin, Top.who)])
-    /\ UNCHANGED <<tree, sit, mdir, stack, log, res, status, pin>>
+    /\ UNCHANGED <<tree, sit, mdir, stack, log, res, status, pin, grow>>
 InitPin ==
     \E n \in 1..Len(Witnesses) :
-        /\ tree = Witnesses[n].tree /\ sit = Witnesses[n].sit /\ mdir = Witnesses[n].mdir /\ pin = n
+        /\ tree = Witnesses[n].tree /\ sit = Witnesses[n].sit /\ mdir = Witnesses[n].mdir /\ pin = n /\ grow = 0
         /\ code = <<>> /\ stack = <<[who |-> MainId, done |-> {}]>>
         /\ log = <<>> /\ res = <<>> /\ status = "load"
 SpecPin == InitPin /\ [][SynthPin \/ Step \/ Finish]_vars
 
 -------------------------------------------------------------------------------
 (* Seeded simulation: deeper and larger trees, drawn with a bias towards the   *)
-(* same path in several places; one long behaviour runs many programs.         *)
-(* (every Rand* operator takes a dummy argument: TLC evaluates a constant-     *)
-(* level definition without parameters only once)                              *)
-RandPath(z, n) == RandomElement(SeqsFromTo(Names, 1, n))
-RECURSIVE RandTreeFrom(_, _, _)
-RandTreeFrom(T, k, z) ==
-    IF k = 0 THEN T ELSE
-    LET kind == RandomElement({"plain", "vendor", "vendor", "deep"})
-        d == CASE kind = "plain" -> RandPath(z, IF MaxDepth > 3 THEN 3 ELSE MaxDepth)
-               [] kind = "deep"  -> RandomElement(PkgDirs(MaxDepth))
-               [] OTHER ->
-                    \* a vendored copy near an existing directory, preferably of a path that is present
-                    LET base == IF T = {} THEN <<RandomElement(Names)>> ELSE RandomElement(T)
-                        hold == SubSeq(base, 1, RandomElement(0..Len(base)))
-                        P    == IF T # {} /\ RandomElement(1..3) > 1 THEN PathOf(RandomElement(T)) ELSE RandPath(z, 2)
-                    IN hold \o <<"vendor">> \o P
-    IN IF Len(d) <= MaxDepth THEN RandTreeFrom(T \cup {d}, k - 1, z) ELSE RandTreeFrom(T, k - 1, z)
-RandTree(z) == RandTreeFrom({}, RandomElement(2..MaxPkgs), z)
-MainCands(T, z) ==
-    LET near == {SubSeq(d, 1, n) : d \in T, n \in 0..MaxMainDepth} \cup
-                {SubSeq(d, 1, n) \o <<x>> : d \in T, n \in 0..(MaxMainDepth - 1), x \in Names}
+(* same path in several places; one long behaviour runs many programs.  Every  *)
+(* random value is drawn exactly once, into a primed variable (a LET-bound     *)
+(* RandomElement would be drawn again at each use).                            *)
+Pools(T) ==
+    LET plain == SeqsFromTo(Names, 1, IF MaxDepth > 3 THEN 3 ELSE MaxDepth)
+        vend  == {d \in {h \o <<"vendor">> \o P : h \in {SubSeq(b, 1, IF n < Len(b) THEN n ELSE Len(b)) : b \in T, n \in 0..MaxDepth},
+                                                    P \in {PathOf(e) : e \in T} \cup SeqsFromTo(Names, 1, 2)} :
+                     Len(d) <= MaxDepth}
+    IN {plain, PkgDirs(MaxDepth)} \cup (IF vend = {} THEN {} ELSE {vend})
+MainCands(T) ==
+    LET cut(d, n) == SubSeq(d, 1, IF n < Len(d) THEN n ELSE Len(d))
+        near == {cut(d, n) : d \in T, n \in 0..MaxMainDepth} \cup
+                {cut(d, n) \o <<x>> : d \in T, n \in 0..(MaxMainDepth - 1), x \in Names}
     IN {d \in near : d \notin T /\ Len(d) >= 1 /\ Len(d) <= MaxMainDepth /\ \A i \in 1..Len(d) : d[i] # "vendor"}
        \cup MainDirs(T)
 
 InitSim == StartLoad({<<"a">>}, "string", Root)
+Done == status \in {"ok", "cycle", "notfound"}
 Restart ==
-    /\ status # "load"
-    /\ LET T  == RandTree(res)
-           mc == MainCands(T, res)
-           s  == IF mc = {} THEN "string" ELSE RandomElement(MainKinds)
-       IN /\ tree' = T /\ sit' = s
-          /\ mdir' = IF s = "file" THEN RandomElement(mc) ELSE Root
-    /\ code' = <<>> /\ stack' = <<[who |-> MainId, done |-> {}]>>
-    /\ log' = <<>> /\ res' = <<>> /\ status' = "load" /\ pin' = 0
-NextSim == Synth(TRUE, TRUE) \/ Step \/ Finish \/ Restart
+    /\ Done
+    /\ tree' = {} /\ grow' = RandomElement(2..MaxPkgs) /\ status' = "tree"
+    /\ sit' = "string" /\ mdir' = Root /\ code' = <<>> /\ stack' = <<>> /\ log' = <<>> /\ res' = <<>> /\ pin' = 0
+Grow ==
+    /\ status = "tree" /\ grow > 0
+    /\ tree' = tree \cup {RandomElement(RandomElement(Pools(tree)))}
+    /\ grow' = grow - 1
+    /\ UNCHANGED <<sit, mdir, code, stack, log, res, status, pin>>
+Place ==
+    /\ status = "tree" /\ grow = 0
+    /\ sit' = IF MainCands(tree) = {} THEN "string" ELSE RandomElement(MainKinds)
+    /\ mdir' = IF sit' = "file" THEN RandomElement(MainCands(tree)) ELSE Root
+    /\ stack' = <<[who |-> MainId, done |-> {}]>> /\ status' = "load"
+    /\ UNCHANGED <<tree, code, log, res, pin, grow>>
+NextSim == Synth(TRUE, TRUE) \/ Step \/ Finish \/ Restart \/ Grow \/ Place
 SpecSim == InitSim /\ [][NextSim]_vars
 
 -------------------------------------------------------------------------------
 (* What TLC checks on the model itself.                                        *)
-Done == status # "load"
 
 \* the resolved import graph over the files entered so far
 EdgesFrom(w) == {Target(tree, DirOf(w), Imps(w)[i]) : i \in 1..Len(Imps(w))}
@@ -423,14 +435,14 @@ CyclesReported ==
     /\ (status = "ok") = (Done /\ Allowed = {})
     /\ (status \in {"cycle", "notfound"}) => status \in Allowed
 \* there are diamonds among the generated programs: witnessed by coverage of this predicate
-Diamond == \E i, j \in 1..Len(res) : i # j /\ res[i].to = res[j].to /\ res[i].to # NotFound /\ res[i].from # res[j].from
+Diamond == status = "ok" /\ \E i, j \in 1..Len(res) : i # j /\ res[i].to = res[j].to /\ res[i].from # res[j].from
 
 \* every pinned witness contains the trigger of its own finding and no other
 PinTriggers ==
-    (pin # 0 /\ status # "load") => UNION {TrigSet(res[i].from, res[i].imp) : i \in 1..Len(res)} = {pin}
+    (pin # 0 /\ Done) => UNION {TrigSet(res[i].from, res[i].imp) : i \in 1..Len(res)} = {pin}
 
 TypeOK ==
-    /\ status \in {"load", "ok", "cycle", "notfound"}
+    /\ status \in {"tree", "load", "ok", "cycle", "notfound"}
     /\ NImports <= MaxImports
     /\ Rng(log) \subseteq tree
 
